@@ -13,7 +13,7 @@ structure GState where
 inductive GAct where
   | comp (h : Nat) (a : SAct)  -- an action of the component of hash h
   | tickMono (dt : Nat)
-  | tickWall (dt : Nat)
+  | tickWall (dt : Int)
   | block (n : Nat)
   | crash
 deriving Repr
@@ -23,7 +23,7 @@ def setComp (f : Nat → SState) (h : Nat) (s : SState) : Nat → SState := fun 
 /-- shared actions are total on every component -/
 def sharedStep : GAct → Option (SState → SState)
   | .tickMono dt => some fun s => { s with mono := s.mono + dt }
-  | .tickWall dt => some fun s => { s with wall := s.wall + dt }
+  | .tickWall dt => some fun s => { s with wall := ((s.wall : Int) + dt).toNat }
   | .block n => some fun s => { s with height := max s.height n }
   | .crash => some fun s => { s with active := none, bks := [], payRunning := false }
   | .comp _ _ => none
